@@ -104,6 +104,8 @@ def run(tier):
     J("Cf-small", groups(L - 1, fixed_only=True, quick=True), {"VF_READ_ONE": 1, "VF_BUFSIZES": "1,2,3"}, flex_args=["-Cf"])
     J("fixed-small", groups(L - 1, fixed_only=True, quick=True), {"VF_READ_ONE": 1, "VF_BUFSIZES": "1,2,3"})
     J("R", groups(L - 1, quick=True), {}, api="R", options=["reentrant"])
+    # the same rule sets with their tables loaded from a file: the serialized accepting lists carry the trailing-context flags too
+    J("tables-file", groups(L - 1, quick=True), {}, options=['tables-file="s.tables"'], cdefs=['VF_TABLES_FILE="s.tables"'])
     J("C99", [g for g in groups(L - 1, quick=True) if not g.label.startswith("tc-chain")], {}, api="C99")
     J("lineno", groups(L - 1, quick=True), {"VF_CHECK_LINENO": 1}, options=["yylineno"])
     # yyinput() moves the scanning position: the next token is at beginning of line iff the last byte read was a newline
